@@ -115,4 +115,25 @@ PROPS = {
         "assumptions": ["std::locale construction from the environment (string_conv_locale) is not exercised; LC_ALL=C is forced",
                         "results are other properties' business: only totality is judged here (plus the obvious size/nothing check of file_size)"],
     },
+    "C19": {
+        "engines": [{
+            "id": "C19-seq", "bin": "c19s", "flavour": "asan",
+            "runs": {"quick": 100000, "thorough": 10000000},
+            "budget": {"quick": 30, "thorough": 600},
+            "enum_every": {"quick": 400, "thorough": 100},
+        }, {
+            "id": "C19-conc", "bin": "c19c", "flavour": "tsan",
+            "runs": {"quick": 150000, "thorough": 5000000},
+            "budget": {"quick": 30, "thorough": 900},
+        }],
+        "technique": "deterministic simulation with fault injection: (a) seeded sequential histories against the 'latest prefix set wins' model with injected allocation failures and failing sinks; (b) seeded thread schedules of 2-4 fibers on one OS thread, every mutex and atomic operation a scheduling point (link-time wrapped), ThreadSanitizer driven through its fiber API as in-simulation race monitor, linearizability check of the recorded history, deadlock and step bound; minimised replay including the schedule",
+        "level_text": "(a) Sequential: histories up to 60 of set/get/object creation (from context, from location, from parent)/level/enabled/log over all 40 locations of depth <= 3 with 3 names per level; every get/level/enabled equals the model, a message appears on the sink of its level iff level >= current level, exactly once, with the documented text (user formatter outermost, then the location prefix, then the level formatter), on no other sink; allocation failures may interrupt an operation (afterwards every location holds the old or the new level), sinks may refuse output. (b) Concurrent: see the C19-conc engine. Sampling, not proof; weak-memory effects are out of reach (sequentially consistent interleavings only).",
+        "level_note": "Stubs: OS thread scheduler (fiber scheduler), blocking behaviour of the context mutex (simulated owner table; the real pthread_mutex_lock is still called when free so TSan sees acquire/release), sinks (sim::StreamBuf), global operator new. Trusted: the reference model, the linearizability checker, ThreadSanitizer's happens-before tracking under its fiber API, ASan/UBSan, the harness.",
+        "rule": "One run = one generated history (sequential engine: 1-60 operations, half of the runs with injected faults; concurrent engine: 2-4 fibers x 2-6 operations under one seeded schedule). Non-trivial = at least 3 effective operations. Distinct = distinct plans (operations + schedule).",
+        "real": REAL_COMMON + ["all of fcppt.log (context, object, level streams, formatters), tree::object/pre_order/to_root underneath", "ThreadSanitizer runtime (concurrent engine)"],
+        "stub": ["sinks behind std::ostream (sim::StreamBuf, refusing output on order)", "global operator new (injected bad_alloc, tagging)", "thread scheduling and mutex blocking (fiber scheduler; concurrent engine)"],
+        "assumptions": ["log objects are not shared between threads and sinks are written by one thread at a time (the documentation promises no more)",
+                        "lock-free object::level()/enabled() reads are judged one at a time against the lock-protected operations (joint linearizability of several lock-free reads is not promised)",
+                        "the memory order of the per-node atomics is not checked (sequentially consistent interleavings only)"],
+    },
 }
